@@ -102,7 +102,7 @@ reg(Spec("C18", "Endpoints are isolated from each other", ["AsamCmp.Props.C18"],
 
 
 reg(Spec("C11", "Setting a field changes that field and nothing else", ["AsamCmp.Props.C11", "AsamCmp.Props.GenChecks"],
-         ["AsamCmp.C11.setField_length", "AsamCmp.C11.get_set_same", "AsamCmp.C11.get_set_other", "AsamCmp.C11.set_frame", "AsamCmp.C11.set_set_comm", "AsamCmp.C11.set_set_same", "AsamCmp.C11.set_get_id", "AsamCmp.C11.tables_wf", "AsamCmp.C11.tables_words_ok", "AsamCmp.C11.tables_alias_overlap", "AsamCmp.C11.C11_all_classes", "AsamCmp.GenChecks.masks_ok"], ["AsamCmp.Props.C11", "AsamCmp.Props.GenChecks"], gen_fld.gen_c11, predicate=gen_fld.pred_c11,
+         ["AsamCmp.C11.setField_length", "AsamCmp.C11.get_set_same", "AsamCmp.C11.get_set_other", "AsamCmp.C11.set_frame", "AsamCmp.C11.set_set_comm", "AsamCmp.C11.set_set_same", "AsamCmp.C11.set_get_id", "AsamCmp.C11.tables_wf", "AsamCmp.C11.tables_words_ok", "AsamCmp.C11.tables_alias_overlap", "AsamCmp.C11.C11_all_classes", "AsamCmp.GenChecks.masks_ok"], ["AsamCmp.Props.C11", "AsamCmp.Props.GenChecks"], gen_fld.gen_c11, predicate=gen_fld.pred_c11, selfcheck=gen_fld.selfcheck_fld,
          rule="every class x every field x {all-zero, all-ones, 2 random} backgrounds x all in-range values (exhaustive for fields <= 8 bits quick / <= 16 bits thorough, boundary + random for wider), chains of 1..8 sets; non-trivial = non-zero background or chain; predicate: raw bytes = background with exactly the written bit ranges replaced, every getter = table read",
          assumptions=["float fields travel as 32-bit patterns; NaN patterns are excluded from generation"]))
 reg(Spec("C12", "Headers and payload fields use the ASAM CMP / TECMP wire layout", ["AsamCmp.Props.C11", "AsamCmp.Props.GenChecks"],
@@ -112,12 +112,12 @@ reg(Spec("C12", "Headers and payload fields use the ASAM CMP / TECMP wire layout
 
 
 reg(Spec("C03", "Payloads accepted by validation expose only in-bounds data", ["AsamCmp.Props.C03"],
-         ["AsamCmp.C03.accessors_inbounds", "AsamCmp.C03.kinds_total", "AsamCmp.C03.msgValid_inbounds", "AsamCmp.C03.create_valid", "AsamCmp.C03.validator_kind", "AsamCmp.C03.decoded_accessors_inbounds"], ["AsamCmp.Props.C03"], gen_val.gen_c03, predicate=gen_val.pred_c03,
+         ["AsamCmp.C03.accessors_inbounds", "AsamCmp.C03.kinds_total", "AsamCmp.C03.msgValid_inbounds", "AsamCmp.C03.create_valid", "AsamCmp.C03.validator_kind", "AsamCmp.C03.decoded_accessors_inbounds"], ["AsamCmp.Props.C03"], gen_val.gen_c03, predicate=gen_val.pred_c03, selfcheck=gen_val.selfcheck_val,
          rule="per class: every buffer length 0..header+8 x {zeros, ones, random}; every inner length field x {0, fits-1, fits, fits+1, max}; every truncation of well-formed status payloads; random content; a 65.6 KiB interface payload with count 0xFFFF; message-level buffers; accessors of decoded and TECMP-converted packets; views are touched byte by byte under ASan"))
 
 
 reg(Spec("C13", "Payload builders store data faithfully and produce self-valid payloads", ["AsamCmp.Props.C13", "AsamCmp.Props.GenChecks"],
-         ["AsamCmp.C13.can_setData", "AsamCmp.C13.can_setData_valid", "AsamCmp.C13.can_setData_canonical", "AsamCmp.C13.dlc_iso", "AsamCmp.C13.lin_setData", "AsamCmp.C13.lin_setData_canonical", "AsamCmp.C13.eth_setData", "AsamCmp.C13.eth_setData_canonical", "AsamCmp.C13.analog_setData", "AsamCmp.C13.analog_setData_canonical", "AsamCmp.C13.cmString_spec", "AsamCmp.C13.cm_setData", "AsamCmp.C13.cm_setData_canonical", "AsamCmp.C13.if_setData", "AsamCmp.C13.if_setData_canonical", "AsamCmp.C13.defaults_valid", "AsamCmp.GenChecks.dlc_ok"], ["AsamCmp.Props.C13", "AsamCmp.Props.GenChecks"], gen_bld.gen_c13, predicate=gen_bld.pred_c13,
+         ["AsamCmp.C13.can_setData", "AsamCmp.C13.can_setData_valid", "AsamCmp.C13.can_setData_canonical", "AsamCmp.C13.dlc_iso", "AsamCmp.C13.lin_setData", "AsamCmp.C13.lin_setData_canonical", "AsamCmp.C13.eth_setData", "AsamCmp.C13.eth_setData_canonical", "AsamCmp.C13.analog_setData", "AsamCmp.C13.analog_setData_canonical", "AsamCmp.C13.cmString_spec", "AsamCmp.C13.cm_setData", "AsamCmp.C13.cm_setData_canonical", "AsamCmp.C13.if_setData", "AsamCmp.C13.if_setData_canonical", "AsamCmp.C13.defaults_valid", "AsamCmp.GenChecks.dlc_ok"], ["AsamCmp.Props.C13", "AsamCmp.Props.GenChecks"], gen_bld.gen_c13, predicate=gen_bld.pred_c13, selfcheck=gen_bld.selfcheck_bld,
          rule="every data length 0..255 (CAN/CAN-FD/LIN), {0,1,2,63,64,65,1499,65529}+random (Ethernet/analog), strings 0..40/255/256/1000, id lists of every parity, on default objects and on objects that held longer/shorter/different data (chains of 2..4 setData calls); predicate: raw bytes equal the protocol-table layout of the last call's data with the earlier header fields preserved, validator and decoder accept"))
 
 
